@@ -171,9 +171,11 @@ package optics
 //@ func (morphism) Forward
 //@   opt via=subtype
 //@   loop 0 invariant deref(s) == old(deref(s)) && mfwd(rest, deref(s), deref(t)) == mfwd(range, old(deref(s)), old(deref(t)))
+//@   loop 0 invariant nothing_else_written: (forall q *S :: deref(q) == old(deref(q))) && (forall q *T :: q != t ==> deref(q) == old(deref(q)))
 //@ func (morphism) Inverse
 //@   opt via=subtype
 //@   loop 0 invariant deref(t) == old(deref(t)) && minv(rest, deref(t), deref(s)) == minv(range, old(deref(t)), old(deref(s)))
+//@   loop 0 invariant nothing_else_written: (forall q *T :: deref(q) == old(deref(q))) && (forall q *S :: q != s ==> deref(q) == old(deref(q)))
 
 //@ func Iso
 //@   requires sa != nil && ta != nil
